@@ -72,7 +72,7 @@ class World:
                  "[core]", "\teditor = true", "[merge]", "\tconflictstyle = merge"]
         for sect, key, val in (gitconfig or []):
             lines.append("[%s]" % sect)
-            lines.append("\t%s = %s" % (key, val))
+            lines.append("\t%s = %s" % (key, str(val).replace("{ROOT}", root)))
         with open(os.path.join(self.home, ".gitconfig"), "w") as f:
             f.write("\n".join(lines) + "\n")
         link = os.path.join(self.bin, "git")
